@@ -1,6 +1,8 @@
 """C14 — assignment solver (qcelemental/util/scipy_hungarian.py): step-trace correspondence with the Lean
 Munkres model, the proved certificate checker run on the implementation's answers, and an independent
-Python oracle (brute force <= 8x8, dual bound beyond). Besides single matrices (random, exhaustive small, long-run
+Python oracle (brute force <= 8x8, dual bound beyond); integer matrices of large magnitude are also run through the model IN THE WORK
+DTYPE (float64 rounding / int64 / uint64 wrap-around: Props/C14Exact.lean proves it equals the exact model inside B(M,n,m) = 8*max|entry|,
+the driver reports the bound per case). Besides single matrices (random, exhaustive small, long-run
 structured tables) the solver is driven through call sequences mixing index-only and return_cost=True calls."""
 from __future__ import annotations
 
@@ -13,8 +15,9 @@ import numpy as np
 from common import Ctx, Finding, Outcome
 
 PROPERTY = "C14"
-LEAN_TARGETS = ["QcelVerif.Props.C14", "QcelVerif.Props.C14Inv", "QcelVerif.Props.C14Term", "QcelVerif.Lemmas.AssignCert",
-                "QcelVerif.Lemmas.MunkresInv", "QcelVerif.Lemmas.MunkresInv2", "QcelVerif.Lemmas.MunkresTerm", "QcelVerif.Driver.C14"]
+LEAN_TARGETS = ["QcelVerif.Props.C14", "QcelVerif.Props.C14Inv", "QcelVerif.Props.C14Term", "QcelVerif.Props.C14Exact", "QcelVerif.Lemmas.AssignCert",
+                "QcelVerif.Lemmas.MunkresInv", "QcelVerif.Lemmas.MunkresInv2", "QcelVerif.Lemmas.MunkresTerm", "QcelVerif.Lemmas.MunkresExact",
+                "QcelVerif.Lemmas.MunkresExactRun", "QcelVerif.Lemmas.MunkresRound", "QcelVerif.Model.MunkresFloat", "QcelVerif.Driver.C14"]
 DRIVER = "QcelVerif/Driver/C14.lean"
 THEOREMS = [
     ("QcelVerif.Assign.cert_optimal",
@@ -61,17 +64,42 @@ THEOREMS = [
      "every valid (2-d, numeric, finite) well-shaped input of any shape is answered: the model never runs out of its fuel 4(n+m)^3+16 and never overruns path (mu(initial) = (n+1)(2n+5) < fuel)"),
     ("QcelVerif.Munkres.solve_correct",
      "TOTAL CORRECTNESS of the solver model: for every valid well-shaped cost matrix solve returns an answer, and it is a complete assignment with rows strictly increasing, of minimum total cost over ALL complete assignments, every optimum lies on the zeros of the reduced matrix, reduced >= 0, = 0 on the pairs, = cost - u_i - v_j"),
+    ("QcelVerif.Munkres.visited_values_box",
+     "cost entries on a grid g*Z inside [lo,hi], K=hi-lo: at EVERY state the run of solve visits (any shape, tall via the transpose) every working-matrix entry is on the grid and in [0,2K] (= the cost before step 1), every subtracted row minimum is a cost entry, step 6's minval is on the grid in [0,2K], potentials u,v with C = cost-u-v exist on the grid with u in [lo-2K,hi], v in [lo-2K-hi,hi-lo+2K], and every result of an arithmetic operation of _step1/_step6 (x-rowmin, x+minval, (..)-minval) is on the grid and in [0,4K]"),
+    ("QcelVerif.Munkres.entries_integral",
+     "integer cost entries -> at every visited state every working-matrix entry, every subtracted minimum (row minima, minval), potentials u,v and every arithmetic result is an integer"),
+    ("QcelVerif.Munkres.entries_bounded",
+     "integer entries with |entry| <= M -> at every visited state everything lies within B(M,n,m) = 8M (independent of n,m): working matrix in [0,4M] ([-M,M] before step 1), row minima in [-M,M], minval in [0,4M], potentials |u|,|v| <= 6M, arithmetic results in [0,8M]"),
+    ("QcelVerif.Munkres.solveFloat_eq_solve_box",
+     "solveFloat rnd inp = solve inp (same trace, pairs, reduced matrix, same error if any; any shape, any fuel) for EVERY rounding function rnd that is the identity on the grid values in [0,4(hi-lo)], where solveFloat applies rnd to the result of each +/- the implementation performs on the work matrix"),
+    ("QcelVerif.Munkres.float_exact_on_small_integers",
+     "integer entries, |entry| <= M, 8M <= 2^53 -> the entries, every entry of every visited working matrix and every arithmetic result are Exact53 (integer, |x| <= 2^53), and solveFloat rnd inp = solve inp for every rnd with rnd x = x on Exact53 values"),
+    ("QcelVerif.Munkres.float64_exact_run",
+     "the same with the CONCRETE IEEE round-to-nearest-even to 53 bits (Hash.rndDouble, proved to be the identity on Exact53): the float64 run equals the exact-rational run"),
+    ("QcelVerif.Munkres.no_overflow_int64",
+     "integer entries with 8*max|entry| < 2^63 -> every arithmetic result is an integer in [0,2^63) and the run with two's-complement int64 wrap-around at every operation equals the exact run"),
+    ("QcelVerif.Munkres.no_overflow_uint64",
+     "integer entries with 8*max|entry| < 2^64 -> the run with uint64 wrap-around equals the exact run (every arithmetic result is non-negative)"),
+    ("QcelVerif.Munkres.no_overflow_int64_spread",
+     "integer entries of ANY magnitude in [lo,hi] with 4(hi-lo) < 2^63 -> the int64 run equals the exact run (only differences of entries are ever formed)"),
+    ("QcelVerif.Munkres.trace_states_visited",
+     "every _Hungary state recorded in the trace of an answer of solve is a visited state (so the clauses above hold of every state the harness compares)"),
+    ("QcelVerif.Munkres.intBoxB_sound",
+     "the executable check the driver uses to report 'inside the theorem' (all entries integers in [lo,hi]) implies the hypothesis of the exactness theorems"),
 ]
 TRUSTED_BASE = [
     "Lean 4.33 kernel; axioms per theorem audited on every run (subset of propext, Classical.choice, Quot.sound)",
     "hand-written model Model/Munkres.lean of scipy_hungarian.py:93-296, tied by step-trace correspondence (every step's full state) on exactly representable matrices",
+    "Model/MunkresFloat.lean: WHICH operations the work dtype performs (x - rowmin in _step1; x + minval on covered rows, then (..) - minval on uncovered columns in _step6; min/==/argmax never round) and WHICH dtype state.C has (float16/32/64 -> float64, bool/int8..64/uint8..32 -> int64, uint64 -> uint64) are read off the source by hand; tied by the bit-for-bit trace diff of the inexact:* stream (incl. int64 entries beyond 2^53 and float32/float16/int32/uint32 inputs) and, beyond the bound, by the above:* stream against solveFloat rndDouble",
+    "float64 +/- is correctly rounded (IEEE 754 round-to-nearest-even): modelled by Hash.rndDouble (no overflow/subnormals - irrelevant for integers up to 2^57), assumed of numpy/the hardware",
     "Model/AssignCert.lean certificate checker is proved sound (Props/C14.lean); its *use* on float outputs relies on Fraction(float) being exact",
     "numpy elementwise IEEE arithmetic, np.argmax = first maximum, np.nonzero row-major (folded into the model, checked by the trace diff)",
     "harness/c14.py generators, the monkey-patched step tracer, and the Python oracle",
 ]
 ASSUMPTIONS = [
-    "real/integer/boolean dtypes; complex, unsigned-overflow and object-numeric matrices are outside the quantifier and not generated",
+    "real/integer/boolean dtypes; complex, unsigned-overflow and object-numeric matrices are outside the quantifier and not generated (uint32/uint64 matrices are generated only where no unsigned wrap-around can occur: 8*max|entry| < 2^64, no_overflow_uint64, or a spread of a few units in the extreme:* block)",
     "float runs are held to optimality within 1e-9*max(1,max|cost|)*max(n,m) (float Munkres is only eps-optimal); integer and small-dyadic runs exactly",
+    "dtype paths covered by the exactness theorems (Props/C14Exact.lean): work dtype float64 (inputs float16/32/64) for integer-valued entries with 8*max|entry| <= 2^53 [float_exact_on_small_integers, float64_exact_run], and more generally for entries on a grid g*Z with rnd the identity on grid values in [0,4*(max-min)] [solveFloat_eq_solve_box: e.g. the multiples of 1/8 below 2^30 of the dyadic streams - for those the identity of IEEE rounding on the grid is the hypothesis, proved concretely only for g = 1]; work dtype int64 (inputs bool, int8..int64, uint8..uint32; integer input is NOT converted to float) for 8*max|entry| < 2^63 or 4*(max-min) < 2^63 [no_overflow_int64, no_overflow_int64_spread]; work dtype uint64 (input uint64) for 8*max|entry| < 2^64 [no_overflow_uint64]. NOT covered: non-integer (non-grid) floats, integer-valued floats with 8*max|entry| > 2^53, integers beyond those bounds (wrap-around possible), the conversion of the caller's array to the work dtype (np.asarray/astype: differential only)",
     "the theorems are about the exact-rational model: partial and total correctness of Munkres (step invariants, termination within 4(n+m)^3+16 steps, n+1 passes of the step-4 loop, n+m+1 links of the step-5 path) are proved for all sizes over Rat; for float inputs whose arithmetic is not exact the implementation may deviate from the model (eps-optimality, and in principle non-termination) - that part is covered by the executed certificate with measured slack and the hang budget",
     "a mutation that changes the step sequence but still yields certified optimal answers is reported as a broken correspondence (VIOLATION ... no-failing-input-found), not as a property failure",
     "call sequences keep at most the 8 preceding calls of one process as history; dependence on older calls or on another process/thread is not explored; whether the caller's matrix is left unmodified is counted (seq:input_modified) but not demanded",
@@ -91,6 +119,12 @@ RULE = (
     "by the property on its own (index-only answers: matching clauses and minimum total, brute force <= 8x8, beyond that against a dual-certified "
     "total of the same matrix) and, on exactly representable matrices, compared with the stateless model; a failing call is recorded with the calls "
     "that preceded it (shortened to the shortest tail that reproduces it in a fresh process) and replayed as that sequence. "
+    "Work-dtype streams (block:inexact:*, block:above:*): integer matrices 1..12 x 1..12 of large magnitude (uniform/signed/offset+small/duplicated/powers of two/scaled "
+    "Monge and squared-distance tables) as float64 up to 2^40, int64 up to 2^40 and up to 2^59 (beyond float64's 2^53), float32 up to 2^24, float16 up to 2^11, "
+    "int32, uint32, uint64 up to 2^60; the driver runs the model IN THE WORK DTYPE (solveFloat with IEEE rounding / int64 / uint64 wrap-around) and reports "
+    "M = max|entry|, B(M,n,m) = 8M and whether the hypotheses of the exactness theorems hold; inside them the implementation's full step trace, pairs and reduced "
+    "matrix must equal the model's bit for bit and the property is held exactly (Fractions oracle, return_cost and index-only call); block:above:f64 = integer-valued "
+    "float64 with 2^53 < 8*max|entry| <= 2^56, 2..8 x 2..8: judged by the property with the float tolerance and compared with the float64 model only (agreement with the exact model is counted, not demanded). "
     "Distinct = distinct (shape,dtype,entries); non-trivial = the run leaves step 3 at least once (needs priming/augmenting/adjusting) or is refused."
 )
 LEVEL_TEXT = (
@@ -98,10 +132,14 @@ LEVEL_TEXT = (
     "assignments and all optima lie on its zeros, rectangular included), the Munkres step invariants through steps 1,3,4,5,6 and any number of steps, "
     "termination of every step and of the state machine within the model's fuel, hence TOTAL correctness of the exact-arithmetic solver model "
     "(every valid well-shaped input is answered, and the answer is a complete assignment of minimum cost with a non-negative reduced matrix "
-    "= cost - u - v vanishing on the pairs; tall inputs via the transpose), and refusal of bad input; partial in that the model is hand-written and "
-    "tied to the code by exhaustive small-scope + sampled full step traces on exactly representable matrices (float rounding is outside the model)"
+    "= cost - u - v vanishing on the pairs; tall inputs via the transpose), and refusal of bad input; and the WORK DTYPE is inside the proved part where it is exact: the model with a rounding function at every +/- of "
+    "the work matrix (solveFloat) provably equals the exact model - whole trace and reduced matrix - for integer entries with 8*max|entry| <= 2^53 in float64 "
+    "(concrete IEEE round-to-nearest-even), < 2^63 in int64, < 2^64 in uint64 (every intermediate value is proved to be an integer inside B(M,n,m) = 8M, working matrix "
+    "within 4M, for every shape), and for any grid/rounding pair that is exact on [0, 4*spread]; partial in that the model is hand-written (including which "
+    "operations round and which dtype the work array has) and tied to the code by exhaustive small-scope + sampled full step traces; float rounding is outside the "
+    "proved part only for non-integer (non-grid) or huge inputs - there the float64 model is differential only and optimality is held within the stated tolerance"
 )
-TECHNIQUE = "Lean 4 proof of weak duality for rectangular assignment (certificate checker) + Lean 4 invariant proof (partial correctness) of the Munkres model + step-trace correspondence + brute-force oracle"
+TECHNIQUE = "Lean 4 proof of weak duality for rectangular assignment (certificate checker) + Lean 4 invariant and termination proof (total correctness) of the Munkres model + Lean 4 proof that the run in the work dtype (float64 / int64 / uint64) equals the exact run inside an explicit magnitude bound + step-trace correspondence (exact model and work-dtype model) + brute-force oracle"
 
 STEP_CAP = 20000
 HANG_BUDGET = 4  # after this many non-terminating calls the stream is cut short (each costs a time-out)
@@ -1066,6 +1104,163 @@ def extreme_phase(ctx, out: Outcome):
 
 
 
+# --------------------------------------------------------------------------------------
+# the work dtype inside the proved part (Props/C14Exact.lean): integer matrices of large magnitude on which, by
+# float_exact_on_small_integers / no_overflow_int64 / no_overflow_uint64, the implementation's run in float64 / int64 /
+# uint64 must coincide with the exact model bit for bit (every _Hungary state, the pairs, the reduced matrix); and a
+# stream just above the bound, where it need not (reported, not judged against the exact model).
+
+
+def work_dtype(arr) -> str:
+    """dtype of state.C for this input (scipy_hungarian.py:103-110): bool/int8..int64/uint8..uint32 -> int64, uint64 stays,
+    float16/32/64 -> float64"""
+    if arr.dtype == np.dtype(bool) or (arr.dtype.kind in "iu" and arr.dtype.itemsize < 8) or arr.dtype == np.dtype(np.int64):
+        return "i64"
+    if arr.dtype == np.dtype(np.uint64):
+        return "u64"
+    return "f64"
+
+
+def _int_table(rng, n, m, top):
+    """n x m Python integers of magnitude <= top: uniform, offset + small (ties), duplicated rows/columns, scaled Monge tables
+    (many step-6 rounds)"""
+    kind = rng.choice(["unif", "unif", "signed", "offset", "offset", "dup", "monge", "sqdist", "pow2"])
+    if kind == "unif":
+        a = [[rng.randint(0, top) for _ in range(m)] for _ in range(n)]
+    elif kind == "signed":
+        a = [[rng.randint(-top, top) for _ in range(m)] for _ in range(n)]
+    elif kind == "offset":
+        base = rng.choice([1, -1]) * rng.randint(top // 2, top - 16) if top > 64 else 0
+        hi = rng.choice([1, 2, 9])
+        a = [[base + rng.randint(0, hi) for _ in range(m)] for _ in range(n)]
+    elif kind == "dup":
+        a = _dup(rng, np.array([[rng.randint(0, 9) for _ in range(m)] for _ in range(n)], dtype=object)).tolist()
+        sc = max(1, top // 16)
+        a = [[x * sc for x in row] for row in a]
+    elif kind == "pow2":
+        a = [[rng.choice([1, -1]) * (1 << rng.randint(0, max(1, top.bit_length() - 1))) for _ in range(m)] for _ in range(n)]
+    else:
+        w, p_ = _sorted_distinct(rng, n, n + m), _sorted_distinct(rng, m, n + m)
+        if kind == "monge":
+            raw = [[w[i] * p_[j] for j in range(m)] for i in range(n)]
+        else:
+            raw = [[(w[i] - p_[j]) ** 2 for j in range(m)] for i in range(n)]
+        mx = max(max(abs(x) for x in row) for row in raw) or 1
+        sc = max(1, top // mx)
+        sg = rng.choice([1, 1, -1])
+        a = [[sg * x * sc for x in row] for row in raw]
+    return a
+
+
+def gen_exact_large(ctx):
+    """(tag, arr): 'inexact:*' = inside the exactness theorems, 'above:*' = float64 just above the bound"""
+    rng = ctx.rng
+    for _ in range(ctx.scale(420, 5000)):
+        n, m = rng.randint(1, 12), rng.randint(1, 12)
+        if rng.random() < 0.4:
+            m = n
+        cls = rng.choice(["f64", "f64", "f64", "i64", "i64", "i64big", "f32", "f16", "i32", "u64", "u32"])
+        if cls == "f64":
+            a = np.array(_int_table(rng, n, m, 2 ** rng.choice([20, 33, 40, 40])), dtype=np.float64)
+        elif cls == "i64":
+            a = np.array(_int_table(rng, n, m, 2 ** rng.choice([20, 40, 40])), dtype=np.int64)
+        elif cls == "i64big":
+            # beyond 2**53 (a float64 work array would round these), 8*max|entry| still < 2**63
+            a = np.array(_int_table(rng, n, m, 2 ** rng.choice([54, 58, 59])), dtype=np.int64)
+        elif cls == "f32":
+            a = np.array(_int_table(rng, n, m, 2 ** 24), dtype=np.float32)
+        elif cls == "f16":
+            a = np.array(_int_table(rng, n, m, 2 ** 11), dtype=np.float16)
+        elif cls == "i32":
+            a = np.array(_int_table(rng, n, m, 2 ** 31 - 1), dtype=np.int32)
+        elif cls == "u64":
+            a = np.array([[abs(x) for x in row] for row in _int_table(rng, n, m, 2 ** rng.choice([20, 40, 60]))], dtype=np.uint64)
+        else:
+            a = np.array([[abs(x) for x in row] for row in _int_table(rng, n, m, 2 ** 32 - 1)], dtype=np.uint32)
+        yield "inexact:" + cls, a
+    for _ in range(ctx.scale(120, 1500)):
+        n, m = rng.randint(2, 8), rng.randint(2, 8)
+        if rng.random() < 0.4:
+            m = n
+        # entries are doubles (|x| <= 2**53) but 8*max|x| > 2**53: sums / differences of the run may round
+        a = np.array(_int_table(rng, n, m, 2 ** rng.choice([51, 52, 53])), dtype=np.float64)
+        yield "above:f64", a
+
+
+def enc_float(arr) -> str:
+    return enc_solve("F", arr) + "|" + work_dtype(arr)
+
+
+def exact_judge(out: Outcome, tag, arr, ci, res, res_idx, line):
+    """one case of the work-dtype streams against the driver's F line `<run in the work dtype>@M|B|inside|spread|same`"""
+    case = {"matrix": case_json(arr), "op": "F"}
+    if res_idx is not None:
+        for kind, msg in oracle_exact(arr, res, res_idx):
+            out.violations.append(Finding(kind, case, observed=ci[:2000], detail=msg + " [integer matrix inside the exactness theorem: held exactly]"))
+    else:
+        for kind, msg in oracle(arr, res):
+            out.violations.append(Finding(kind, case, observed=ci[:2000], detail=msg))
+    if line is None or res[0] == "hang":
+        return
+    head, _, meta = line.rpartition("@")
+    f = meta.split("|")
+    if len(f) != 5 or not head:
+        out.mismatches.append(Finding("mismatch", case, observed=ci[:500], expected=line[:500], detail="driver F line malformed"))
+        return
+    M, B, inside, spread, same = f
+    within = inside == "1" or spread == "1"
+    out.count(f"exact:{work_dtype(arr)}:" + ("inside-theorem" if within else "outside-theorem"))
+    out.sample({"block": tag, "shape": list(arr.shape), "dtype": str(arr.dtype), "work_dtype": work_dtype(arr), "max_abs_entry": M,
+                "B(M,n,m)=8M": B, "inside_theorem": within, "model_float_run==model_exact_run": same == "1",
+                "impl==model_float_run": ci == head}, limit=6 if tag.startswith("inexact") else 4)
+    if tag.startswith("inexact") and not within:
+        out.mismatches.append(Finding("mismatch", case, observed=meta, detail="generator produced a matrix outside the exactness theorem in the inside stream (harness bug)"))
+        return
+    if within:
+        if same != "1":
+            out.mismatches.append(Finding("mismatch", case, observed=line[:3000], detail="the model's run in the work dtype differs from its exact run although the theorem's hypotheses hold (contradicts solveFloat_eq_solve_box)"))
+        if ci != head:
+            a, b = head.split("|"), ci.split("|")
+            names = ["status", "step sequence", "pairs", "reduced", "model certOK", "state trace"]
+            where = ",".join(names[i] for i in range(min(len(a), len(b), 6)) if a[i] != b[i]) or "error/ok"
+            out.mismatches.append(Finding("mismatch", case, observed=ci[:3000], expected=head[:3000],
+                                          detail=f"inside the exactness theorem (B={B}, work dtype {work_dtype(arr)}) the implementation must equal the exact model bit for bit; differs in: " + where))
+    else:
+        # above the bound: nothing is demanded beyond the property itself (oracle above); agreement is only reported
+        drop_cert = lambda l: [x for i, x in enumerate(l.split("|")) if i != 4]  # noqa: E731  (the model's certOK flag of a rounded answer)
+        out.count("above:impl==model_float_run:" + ("yes" if drop_cert(ci) == drop_cert(head) else "no"))
+        if drop_cert(ci) != drop_cert(head):
+            # not demanded against the EXACT model; but the float64 model (solveFloat rndDouble: IEEE rounding at each +/- of the
+            # work matrix) is a model of the code too, and integer-valued doubles up to 2**53 are inside what it models
+            out.mismatches.append(Finding("mismatch", case, observed=ci[:3000], expected=head[:3000],
+                                          detail="above the exactness bound: the implementation's float64 run differs from the float64 model (solveFloat rndDouble)"))
+        out.count("above:impl==model_exact_run:" + ("yes" if same == "1" and drop_cert(ci) == drop_cert(head) else "no"))
+        out.count("above:model_float_run==model_exact_run:" + ("yes" if same == "1" else "no"))
+
+
+def exact_phase(ctx, out: Outcome):
+    cases = list(gen_exact_large(ctx))
+    done = []
+    for tag, arr in cases:
+        if out.distribution.get("hangs", 0) >= HANG_BUDGET:
+            break
+        keep = arr.copy()
+        res = call_impl(arr, full=True, limit=30.0)
+        res_idx = call_impl(keep.copy(), full=False, limit=30.0, return_cost=False) if tag.startswith("inexact") else None
+        out.evaluations += 1 + (res_idx is not None)
+        out.count("block:" + tag)
+        if res[0] == "hang":
+            out.count("hangs")
+        if res[0] == "ok" and "4" in res[1]:
+            out.nontrivial(key_of(keep))
+        if res[0] == "ok" and "6" in res[1]:
+            out.count("exact:runs_with_step6")
+        done.append((tag, keep, canon_impl(res, full=True), (res[0],) + tuple(res[1:5]) + ((),) if res[0] == "ok" else res, res_idx))
+    lines = _run_driver(ctx, [enc_float(a) for _, a, _, _, _ in done], "f") if ctx.model_available else [None] * len(done)
+    for (tag, arr, ci, res, res_idx), line in zip(done, lines):
+        exact_judge(out, tag, arr, ci, res, res_idx, line)
+
+
 def cert_ready(arr, res):
     return res[0] == "ok" and len(res[2]) == len(res[3]) and res[4].shape == arr.shape and bool(np.all(np.isfinite(res[4])))
 
@@ -1116,6 +1311,7 @@ def run(ctx: Ctx) -> Outcome:
             res, ci = impl_phase(ctx, out, tag, op, arr)
             done[i] = (res if op != "T" else (res[0],), ci)  # traces are kept only in canonical form
     extreme_phase(ctx, out)
+    exact_phase(ctx, out)
     seqlog = seq_phase(ctx, out, seqs, hung)
     model = {}
     for part, f in tfut:
@@ -1183,6 +1379,18 @@ def replay(ctx: Ctx, case) -> Outcome:
         out.evaluations += 2
         for kind, msg in oracle_exact(arr, res, res_idx):
             out.violations.append(Finding(kind, {"matrix": case_json(arr), "op": "X"}, observed=canon_impl(res, full=False)[:2000], detail=msg))
+        return out
+    if op == "F":
+        keep = arr.copy()
+        res = call_impl(arr, full=True, limit=30.0)
+        out.evaluations += 1
+        w = work_dtype(keep)
+        line = _run_driver(ctx, [enc_float(keep)], "r")[0] if ctx.model_available else None
+        f = line.rpartition("@")[2].split("|") if line is not None else []
+        inside = (len(f) == 5 and "1" in f[2:4]) or (line is None and is_exact(keep))
+        tag = ("inexact:" if inside else "above:") + w
+        res_idx = call_impl(keep.copy(), full=False, limit=30.0, return_cost=False) if inside else None
+        exact_judge(out, tag, keep, canon_impl(res, full=True), res, res_idx, line)
         return out
     res, ci = impl_phase(ctx, out, "replay", op, arr)
     model_line = cert_line = None
